@@ -35,6 +35,7 @@ def run(ctx: Ctx) -> None:
     for focus in FOCUS:
         render.run_focus(ctx, "C07", focus, n // len(FOCUS))
     swept(ctx, 60 if ctx.tier == "quick" else 1500)
+    shared_arrays(ctx, 12 if ctx.tier == "quick" else 200)
     examples.judge_examples(ctx, "C07")     # File.tla EdgesOnBlocks / EdgesOnce on the example scripts' dictionaries
 
 
@@ -68,6 +69,102 @@ class SweptGeometry(Geometry):
 
 
 STEPS = ["invert", "copy", "translate", "rotate", "scale", "mirror"]
+
+
+def shared_arrays(ctx: Ctx, n: int) -> None:
+    """Two lofts whose spline / polyLine side edge is given by THE SAME float numpy array; the second loft is then moved
+    (translate first, the one map applied in place). Each edge is written with the data it was given: the first with the
+    array as the user wrote it, the second with its image - judged by the Render.tla edge clauses."""
+    import classy_blocks as cb
+    import numpy as np
+
+    rng = random.Random(ctx.seed * 17 + 3)
+    recs, progs, geos = [], [], {}
+    for i in range(n):
+        size = 10 ** rng.uniform(-1, 1)
+        base = [[0, 0, 0], [1.2, 0.1, 0], [1.3, 1.1, 0.1], [0.1, 0.9, 0], [0.1, 0, 1.5], [1.3, 0.2, 1.4], [1.2, 1.2, 1.6], [0, 1.0, 1.5]]
+        shift = [rng.uniform(-3, 3) for _ in range(3)]
+        A = [[(c + sh) * size for c, sh in zip(p, shift)] for p in base]
+        corner = rng.randrange(4)
+        kind = rng.choice(["spline", "polyLine"])
+        pa, pb = A[corner], A[corner + 4]
+        arr = np.array([[pa[j] + (pb[j] - pa[j]) * t + (0.25 * size if j == (corner % 2) else 0.0) * h for j in range(3)]
+                        for t, h in ((0.3, 0.8), (0.6, 1.0), (0.85, 0.5))], dtype=float)
+        given = arr.copy()
+        d = [rng.choice([-1, 1]) * rng.uniform(4, 8) * size for _ in range(3)]
+        steps = ["translate"] + [rng.choice(["rotate", "scale", "translate"]) for _ in range(rng.choice([0, 1]))]
+        try:
+            lofts = []
+            for _k in range(2):
+                loft = cb.Loft(cb.Face(A[:4]), cb.Face(A[4:]))
+                loft.add_side_edge(corner, cb.Spline(arr) if kind == "spline" else cb.PolyLine(arr))
+                for a in range(3):
+                    loft.chop(a, count=2)
+                lofts.append(loft)
+            Bp, Bd = [list(p) for p in A], [list(p) for p in given]
+            for st in steps:
+                if st == "translate":
+                    lofts[1].translate(d)
+                    Bp, Bd = [vadd(p, d) for p in Bp], [vadd(p, d) for p in Bd]
+                elif st == "rotate":
+                    a_, ax, o = rng.uniform(-1, 1), [rng.uniform(-1, 1) for _ in range(3)], vadd(A[0], d)
+                    lofts[1].rotate(a_, ax, o)
+                    Bp, Bd = [rot(p, a_, ax, o) for p in Bp], [rot(p, a_, ax, o) for p in Bd]
+                else:
+                    k_, o = rng.choice([0.5, 1.5]), vadd(A[0], d)
+                    lofts[1].scale(k_, o)
+                    Bp, Bd = [scl(p, k_, o) for p in Bp], [scl(p, k_, o) for p in Bd]
+            mesh = cb.Mesh()
+            for loft in lofts:
+                mesh.add(loft)
+            path = os.path.join(ctx.tmp, "shared.bmd")
+            if os.path.exists(path):
+                os.remove(path)
+            mesh.write(path)
+            with open(path, encoding="utf-8") as f:
+                parsed = bmd.parse_blockmeshdict(f.read())
+        except Exception as err:  # pylint: disable=broad-except
+            ctx.violation(f"shared-array:{kind}:raises:{type(err).__name__}", f"two lofts built from one array could not be written: {err}", {"steps": steps})
+            continue
+        ctx.evaluated(f"shared-array:{kind}:{steps}:{i}")
+        if not np.array_equal(arr, given):
+            ctx.violation(f"shared-array:{kind}:callers-array-modified", "moving an operation modified the array its edge was built from", {"steps": steps})
+        coords = {c + 1: A[c] for c in range(8)}
+        coords.update({c + 9: Bp[c] for c in range(8)})
+        data = {1: {"points": [list(map(float, p)) for p in given]}, 2: {"points": Bd}}
+        mk = lambda eid, c0: {"pa": c0 + corner, "pb": c0 + corner + 4, "where": ["side", corner], "kind": kind, "outkind": kind, "id": eid,   # noqa: E731
+                              "labels": [], "degenerate": False, "directed": True}
+        geo = SweptGeometry(coords, data)
+        ops = []
+        for k, loft in enumerate(lofts):
+            ids = list(range(1 + 8 * k, 9 + 8 * k))
+            e = [mk(k + 1, 1 + 8 * k)]
+
+            def posid(p, coords=coords):
+                return min(coords, key=lambda q: sum((coords[q][j] - p[j]) ** 2 for j in range(3)))
+            ops.append({"pts0": ids, "pts": ids, "fsteps": {"bottom": [], "top": []}, "zone": "", "patch": [""] * 6, "sproj": [""] * 6,
+                        "pproj": [[] for _ in range(8)], "deleted": False, "edges": e, "edges_tlc": e,
+                        "get_face": [[posid(p.position) for p in loft.get_face(sd).points] for sd in render.SIDES]})
+        prog = {"id": i + 1, "focus": "shared-array", "ops": ops, "merged": [], "dflt": [], "pkind": [], "psettings": [], "geom": [],
+                "unique_face_labels": True, "builtin": False, "steps": steps, "kind": kind}
+        af = abstract_file(parsed, prog, geo, tol=1e-6 * size)
+        af.update({"vtk_checked": False, "vtk_points_match": True, "vtk_cells": []})
+        rec = {k: prog[k] for k in ("id", "merged", "dflt", "pkind", "psettings", "geom", "unique_face_labels", "builtin")}
+        rec["ops"] = [{k: o[k] for k in ("pts0", "pts", "fsteps", "zone", "patch", "sproj", "pproj", "deleted", "get_face", "edges", "edges_tlc")} for o in ops]
+        rec["settings"] = [["scale", "1"]]
+        rec["file"] = af
+        recs.append(rec)
+        progs.append(prog)
+    if not recs:
+        return
+    verdicts = render.judge(ctx, recs)
+    for prog, rec in zip(progs, recs):
+        ctx.validated()
+        for c in verdicts[prog["id"]]:
+            if render.CLAUSE_PROP[c] != "C07" and c != "IndicesOK":
+                continue
+            ctx.violation(f"shared-array:{c}:{prog['kind']}", f"two lofts with one array for their {prog['kind']} edge, the second moved by {prog['steps']}: "
+                          f"Render.tla clause {c} rejected the written file", {"steps": prog["steps"]})
 
 
 def swept(ctx: Ctx, n: int) -> None:
